@@ -52,12 +52,13 @@ package boltz
 //@   modifies *
 //@   ensures[read-only] dbSame()
 //@   invariant 1: dbSame()
+// the GetOrCreate family only ever creates buckets (assumed: these are not verified here)
 //@ func (*TypedBucket).GetOrCreateBucket
-//@   modifies *
+//@   modifies bktHas, bktVal, bktSub
 //@ func (*TypedBucket).GetOrCreatePath
-//@   modifies *
+//@   modifies bktHas, bktVal, bktSub
 //@ func GetOrCreatePath
-//@   modifies *
+//@   modifies bktHas, bktVal, bktSub
 //@ func ErrBucket
 //@   pure
 //@   ensures result != nil
@@ -67,8 +68,9 @@ package boltz
 //@ func (*uniqueIndex).getIndexBucket
 //@   props C09
 //@   nosafety
-//@   modifies *
+//@   modifies bktHas, bktVal, bktSub
 //@   censures[present-means-no-create] idxBucketPresent(index, tx) ==> dbSame()
+//@   censures[the-index-bucket] result != nil && result.ErrorHolderImpl != nil && (idxBucketPresent(index, tx) ==> result.Err == nil && result.Bucket != nil && ref(result.Bucket) == uxB(index, tx))
 //@ func (*uniqueIndex).Read
 //@   props C09
 //@   nosafety
